@@ -320,6 +320,23 @@ func (dm *DMap) putOnCluster(e *env) error {
 		}
 	}
 
+	if e.putConfig.OnlyUpdateTTL {
+		// Expire doesn't carry a value. The replicas store the complete entry,
+		// so load the current value to keep them identical to the primary copy.
+		current, err := f.storage.Get(e.hkey)
+		if errors.Is(err, storage.ErrKeyNotFound) {
+			return ErrKeyNotFound
+		}
+		if err != nil {
+			return err
+		}
+		if isKeyExpired(current.TTL()) {
+			return ErrKeyNotFound
+		}
+		e.value = make([]byte, len(current.Value()))
+		copy(e.value, current.Value())
+	}
+
 	nt := dm.prepareEntry(e)
 	if dm.s.config.ReplicaCount > config.MinimumReplicaCount {
 		switch dm.s.config.ReplicationMode {
@@ -340,6 +357,12 @@ func (dm *DMap) putOnCluster(e *env) error {
 }
 
 func (dm *DMap) writePutCommand(e *env) (*redis.StatusCmd, error) {
+	if e.putConfig.OnlyUpdateTTL {
+		// Expire only updates the expiry of an existing key. It has to be
+		// redirected as is, a plain put command would overwrite the value.
+		return protocol.NewPExpire(e.dmap, e.key, e.timeout).Command(dm.s.ctx), nil
+	}
+
 	cmd := protocol.NewPut(e.dmap, e.key, e.value)
 	switch {
 	case e.putConfig.HasEX:
